@@ -288,6 +288,13 @@ def run_writer_case(prog, params):
             if op == 'copy_file':
                 if not check_content(sr, ex, 'f', cur, findings, prop, tag + '|copy_file_source'):
                     return findings
+                # the copy is independent of its source: a later write session on one must not show through the other
+                sr.syms['more'] = sym_content(ex, 1, 'more')
+                if sr.do('append f $more') == 'ok':
+                    if not check_content(sr, ex, 'g', cur, findings, prop, tag + '|copy_changes_with_source'):
+                        return findings
+                    if not check_content(sr, ex, 'f', tuple(cur) + tuple(sr.syms['more']), findings, prop, tag + '|append_after_copy'):
+                        return findings
             else:
                 sr.do('exists f')
                 if sr.last.ok and sr.last.value is not False:
@@ -356,13 +363,24 @@ def run_lifecycle_case(prog, params):
         for s_ in steps:
             sr.do(s_)
         tail = ['hflush h', 'hdrop h'] if mode != 'open' else ['hread h 2', 'hseek h end 0', 'hread h 1', 'hdrop h']
-        for s_ in tail + ['exists df', 'read_dir d', 'walk_dir R', 'metadata df']:
+        seen = {}
+        for s_ in tail + ['exists df', 'read_dir d', 'walk_dir R', 'metadata df', 'read df 2']:
             sr.do(s_)
             o = sr.last
+            seen[s_.split()[0]] = o
             if o is not None and o.tag in ('panic', 'deadlock'):
                 findings.append(make_finding('C13', '%s|handle_after_removal|%s|%s:%s' % (cfg, mode, s_.split()[0], o.where or '?'),
                                              '`%s` on a %s handle after `%s` %ss: %s' % (s_, mode, '; '.join(steps), o.tag, o.msg), sr))
                 break
+        if cfg.startswith('ovl') and how in (0, 1, 3) and 'C10' in params.get('props', ('C13',)):
+            # removed through the overlay: the entry stays absent from every observer, whatever a late flush of an old
+            # handle puts into the upper layer
+            ex_, md, rd = seen.get('exists'), seen.get('metadata'), seen.get('read')
+            if ex_ is not None and md is not None and rd is not None:
+                vis = [n for n, o in (('exists', ex_), ('metadata', md), ('read', rd)) if o.ok and o.value is not False]
+                if vis:
+                    findings.append(make_finding('C10', '%s|late_flush_after_removal|%s|visible_through:%s' % (cfg, mode, '+'.join(vis)),
+                                                 'after `%s` the removed file is visible again through %s once the old %s handle is flushed/dropped' % ('; '.join(steps), ', '.join(vis), mode), sr))
         if not res.samples:
             res.samples.append({'config': cfg, 'script': [l for l, _ in sr.log][-8:]})
         return findings
